@@ -557,7 +557,7 @@ def order_independence_stage(self, key):
     Nb, Lb = rng.randint(1030, 1060), 8
     brecs = [(rng.randrange(Nb), rng.randrange(Nb), [rng.choice([0, 0, 1, 1, 2]) for _ in range(Lb)]) for _ in range(rng.randint(2500, 4000))]
     big = RunCase(rng.random() < 0.5, rng.random() < 0.5, "r", 2, brecs, Lb, r=1, maxit=1, seed=rng.randint(0, 2 ** 32))
-    nrep = 2 if self.tier == "quick" else 4
+    nrep = 8 if self.tier == "quick" else 16
     biglines = [big.line("oibig%d" % j) for j in range(nrep)]
     if not self.bdir:
         return
